@@ -222,6 +222,69 @@ def scenario_requests(sess, rng, r, nep, plan, label):
     c('async_free 0')
 
 
+def scenario_forward(sess, rng, r, nep, kind, label):
+    """what every endpoint is sent is the user's request: the same document hash and level (signing), the same aggregation and publication time
+    (extending; the publication time may be absent). The first endpoint that answers then completes the user's handle."""
+    c = sess.cmd
+    ha = HA(sess, rng, r, nep, kind, label)
+    if kind == 'sign':
+        h = R.H(rng.choice([1, 1, 4, 5]), b'ha-fwd/' + label.encode())
+        lvl = rng.choice([0, 1, 3, 17, 100])
+        want = dict(hash=h, level=lvl if lvl else None)
+        q = c('async_add 0 0 sign %s %d u1' % (h.hex(), lvl))
+    else:
+        t = 1500000000 + rng.randrange(10 ** 6)
+        p = rng.choice([None, t, t + 1, t + rng.randrange(2, 10 ** 7), t + 2 ** 31])
+        want = dict(aggr_time=t, pub_time=p)
+        q = c('async_add 0 0 ext %d %s u1' % (t, p if p is not None else '-'))
+    if q.rc != 0:
+        ha.viol('add-refused:rc=%#x' % q.rc, 'user request refused by an idle HA service')
+        c('async_free 0')
+        return
+    reqs = {}
+    got = None
+    for step in range(6):
+        ha.tick()
+        q = ha.run()
+        if q.get('handle') == '1' and q.get('tag') == 'u1':
+            got = q
+        for i, host in enumerate(ha.hosts):
+            for info, rq in ha.requests_on(host):
+                reqs[i] = (info, rq)
+    r.count('ha_forward_scenarios')
+    r.observe(('forward', kind, nep, tuple(sorted(k for k, v in want.items() if v is not None))))
+    if len(reqs) != nep:
+        ha.viol('request-not-forwarded', 'only endpoints %s of %d received the %s request' % (sorted(i + 1 for i in reqs), nep, kind))
+    for i, (info, rq) in sorted(reqs.items()):
+        have = {k: rq.get(k) for k in want}
+        if kind == 'sign' and not have.get('level'):
+            have['level'] = None
+        if have != want:
+            ha.viol('forwarded-request-differs:%s' % kind, 'endpoint %d was sent %s, the user asked for %s' % (i + 1, {k: (v.hex() if isinstance(v, bytes) else v) for k, v in have.items()}, {k: (v.hex() if isinstance(v, bytes) else v) for k, v in want.items()}))
+            break
+    if reqs and got is None:
+        i = rng.choice(sorted(reqs))
+        info, rq = reqs[i]
+        if kind == 'sign':
+            sg = gen.gen_signature(random.Random(label), first_corr=want['level'] or 0, with_cal=False, rfc=False, doc_imprint=want['hash'], time=1500000000, nchains=1)
+            c('net_push %d %s' % (info['fd'], S.aggr_response(rq, sg, KEY).hex()))
+        else:
+            pp = want['pub_time'] if want['pub_time'] is not None else want['aggr_time'] + 1000
+            ch = S.Calendar(b'c15-fwd').chain(want['aggr_time'], pp, R.H(1, b'c15-root/' + label.encode()))
+            c('net_push %d %s' % (info['fd'], S.ext_response(dict(req_id=rq['req_id']), ch, KEY, last_time=pp).hex()))
+        for step in range(4):
+            ha.tick()
+            q = ha.run()
+            if q.get('handle') == '1' and q.get('tag') == 'u1':
+                got = q
+                break
+        if got is None or int(got['state']) != ST_RESP:
+            ha.viol('forward:valid-reply-not-delivered:%s' % kind, 'endpoint %d answered the forwarded %s request validly; the user request %s' % (i + 1, kind, 'was not handed back' if got is None else 'came back in state %s error %#x' % (got['state'], int(got.get('herr', 0)))))
+        else:
+            r.count('ha_forward_completed')
+    c('async_free 0')
+
+
 def scenario_readd(sess, rng, r, nep, second, label):
     """a request completes with a valid response; the caller adds the SAME handle object once more; in the second round every endpoint behaves
     as `second` says. The second round stands for itself: completed with the first valid response of the second round, or - when every endpoint
@@ -480,6 +543,12 @@ def worker(job, r):
                 if k % nshards != shard:
                     continue
                 scenario_readd(sess, rng, r, nep, list(second), 'ra%d' % k)
+        # what is forwarded is what the user asked for (all optional request fields, signing and extending)
+        for k2 in range(60):
+            k += 1
+            if k % nshards != shard:
+                continue
+            scenario_forward(sess, rng, r, 1 + k2 % 3, 'sign' if k2 % 3 == 0 else 'extend', 'fw%d' % k)
         # one endpoint (or two) holds its only cache slot: the next request reaches the others only
         for nep in (2, 3):
             for nsil in range(1, nep):
@@ -540,5 +609,5 @@ def run(ctx):
     ctx.exhaustive = False
     c = ctx.counters
     if not ctx.violations and not ctx.known_printed:
-        ctx.require(c.get('ha_request_scenarios', 0) >= 1300 and c.get('ha_config_scenarios', 0) >= 100 and c.get('ha_partial_forward_scenarios', 0) >= 100, 'scenarios executed')
+        ctx.require(c.get('ha_request_scenarios', 0) >= 1300 and c.get('ha_config_scenarios', 0) >= 100 and c.get('ha_partial_forward_scenarios', 0) >= 100 and c.get('ha_forward_completed', 0) >= 40, 'scenarios executed')
         ctx.require(c.get('ha_returned_response', 0) > 300 and c.get('ha_returned_error', 0) > 100, 'both response and error completions observed')
